@@ -63,10 +63,10 @@ Definition is_full (o : aop) : bool := is_ty Recover o || is_ty Deactivate o.
 Definition creates_published_first (l : list aop) : list aop :=
   filter published l ++ filter (fun o => negb (published o)) l.
 
-Fixpoint first_valid_create (l : list aop) : option state :=
+Fixpoint first_valid_create (l : list aop) : option (aop * state) :=
   match l with
   | [] => None
-  | o :: r => match apply o init_state with Some s => Some s | None => first_valid_create r end
+  | o :: r => match apply o init_state with Some s => Some (o, s) | None => first_valid_create r end
   end.
 
 (* isOpWithTxnGreaterThanOrUnpublished *)
@@ -98,71 +98,96 @@ Fixpoint first_valid (cands : list aop) (s : state) (curr : Z) (consumed : list 
   end.
 
 (* applyOperations; [sel] selects the commitment in force (recovery or update).
-   Returns the final state, the consumed commitments (oldest first) and the applied operations.
-   None = fuel exhausted (excluded by Chain.fuel_suffices). *)
-Fixpoint chain (fuel : nat) (sel : state -> Z) (ops : list aop) (s : state)
-         (consumed : list Z) (applied : list aop) : option (state * list Z * list aop) :=
+   Returns the final state, the consumed commitments (oldest first) and the applied operations in
+   order.  None = fuel exhausted (excluded by Chain.fuel_suffices). *)
+Fixpoint chain (fuel : nat) (sel : state -> Z) (ops : list aop) (s : state) (consumed : list Z)
+  : option (state * list Z * list aop) :=
   let c := sel s in
   match candidates c ops with
-  | [] => Some (s, consumed, applied)
+  | [] => Some (s, consumed, [])
   | cands =>
     match first_valid cands s c consumed with
-    | None => Some (s, consumed, applied)
+    | None => Some (s, consumed, [])
     | Some (o, s') =>
-      if sel s' =? 0 then Some (s', consumed ++ [c], applied ++ [o])
+      if sel s' =? 0 then Some (s', consumed ++ [c], [o])
       else match fuel with
            | O => None
-           | S f => chain f sel ops s' (consumed ++ [c]) (applied ++ [o])
+           | S f => match chain f sel ops s' (consumed ++ [c]) with
+                    | Some (s'', cs, ap) => Some (s'', cs, o :: ap)
+                    | None => None
+                    end
            end
     end
   end.
 
-Record result := { r_state : state; r_pub : list Z; r_unpub : list Z; r_applied : list Z }.
-
 Definition run_chain (sel : state -> Z) (ops : list aop) (s : state) : option (state * list aop) :=
-  match ops with
-  | [] => Some (s, [])
-  | _ => match chain (length ops) sel ops s [] [] with
-         | Some (s', _, ap) => Some (s', ap)
-         | None => None
-         end
+  match chain (length ops) sel ops s [] with
+  | Some (s', _, ap) => Some (s', ap)
+  | None => None
   end.
+
+Record result := { r_state : state; r_pub : list Z; r_unpub : list Z; r_applied : list Z }.
 
 Inductive outcome := OErr (e : rerr) | OOk (r : result) | OFuel.
 
-Definition resolve (stored_pub stored_unpub : list aop) (opts : ropts) : outcome :=
+(* merge additional operations, sort each class, concatenate, apply the version filter *)
+Definition prepare (stored_pub stored_unpub : list aop) (opts : ropts)
+  : rerr + (list aop * list aop * list aop) :=
   let '(pub0, unpub0) := merge_additional stored_pub stored_pub stored_unpub (o_additional opts) in
   let pub := sort_ops pub0 in
   let unpub := sort_ops unpub0 in
   let ops := pub ++ unpub in
   match filter_ops opts ops with
-  | inl e => OErr e
+  | inl e => inl e
   | inr fops =>
-    let '(rpub, runpub) :=
-      if Nat.eqb (length fops) (length ops) then (pub, unpub)
-      else (filter published fops, filter (fun o => negb (published o)) fops) in
-    let creates := creates_published_first (filter (is_ty Create) fops) in
-    let updates := filter (is_ty Update) fops in
-    let fulls := filter is_full fops in
-    match creates with
-    | [] => OErr ENoCreate
-    | _ =>
-      match first_valid_create creates with
-      | None => OErr ENoValidCreate
-      | Some s0 =>
-        match run_chain rec fulls s0 with
-        | None => OFuel
-        | Some (s1, ap1) =>
-          let mk s ap := OOk {| r_state := s; r_pub := map oid rpub; r_unpub := map oid runpub;
-                                r_applied := map oid ap |} in
-          if deact s1 then mk s1 ap1
-          else
-            let upds := filter (op_after (last_t s1) (last_n s1)) updates in
-            match run_chain upd upds s1 with
-            | None => OFuel
-            | Some (s2, ap2) => mk s2 (ap1 ++ ap2)
-            end
-        end
+    if Nat.eqb (length fops) (length ops) then inr (pub, unpub, fops)
+    else inr (filter published fops, filter (fun o => negb (published o)) fops, fops)
+  end.
+
+(* prepare followed by the core: everything Resolve computes except the returned operation lists *)
+(* (defined after resolve_core) *)
+
+(* the part of Resolve that works on the prepared (sorted, filtered) operation list:
+   state and applied operations, or an error *)
+Definition resolve_core (fops : list aop) : rerr + option (aop * state * list aop) :=
+  let creates := creates_published_first (filter (is_ty Create) fops) in
+  let updates := filter (is_ty Update) fops in
+  let fulls := filter is_full fops in
+  match creates with
+  | [] => inl ENoCreate
+  | _ =>
+    match first_valid_create creates with
+    | None => inl ENoValidCreate
+    | Some (c0, s0) =>
+      match run_chain rec fulls s0 with
+      | None => inr None
+      | Some (s1, ap1) =>
+        if deact s1 then inr (Some (c0, s1, ap1))
+        else
+          let upds := filter (op_after (last_t s1) (last_n s1)) updates in
+          match run_chain upd upds s1 with
+          | None => inr None
+          | Some (s2, ap2) => inr (Some (c0, s2, ap1 ++ ap2))
+          end
       end
+    end
+  end.
+
+Definition resolve_full (stored_pub stored_unpub : list aop) (opts : ropts)
+  : rerr + option (aop * state * list aop) :=
+  match prepare stored_pub stored_unpub opts with
+  | inl e => inl e
+  | inr (_, _, fops) => resolve_core fops
+  end.
+
+Definition resolve (stored_pub stored_unpub : list aop) (opts : ropts) : outcome :=
+  match prepare stored_pub stored_unpub opts with
+  | inl e => OErr e
+  | inr (rpub, runpub, fops) =>
+    match resolve_core fops with
+    | inl e => OErr e
+    | inr None => OFuel
+    | inr (Some (_, s, ap)) =>
+      OOk {| r_state := s; r_pub := map oid rpub; r_unpub := map oid runpub; r_applied := map oid ap |}
     end
   end.
